@@ -800,13 +800,14 @@ private:
    * if cond is false then
    *     lhs := b2
    **/
-  void fwd_reduction_select_bool(const variable_t &lhs, const variable_t &cond,
+  void fwd_reduction_select_bool(const variable_t &lhs,
+				 const boolean_value &cond_val,
 				 const variable_t &b1, const variable_t &b2) {
-    if (eval_true(cond)) {     
+    if (cond_val.is_true()) {
       m_bool_to_lincsts.set(lhs, m_bool_to_lincsts.at(b1));
       m_bool_to_refcsts.set(lhs, m_bool_to_refcsts.at(b1));
       m_bool_to_bools.set(lhs, m_bool_to_bools.at(b1) & bool_set_t(b1));
-    } else if (eval_false(cond)) {
+    } else if (cond_val.is_false()) {
       m_bool_to_lincsts.set(lhs, m_bool_to_lincsts.at(b2));
       m_bool_to_refcsts.set(lhs, m_bool_to_refcsts.at(b2));
       m_bool_to_bools.set(lhs, m_bool_to_bools.at(b2) & bool_set_t(b2));
@@ -1494,11 +1495,14 @@ public:
       if (b1 == b2) {
 	assign_bool_var(lhs, b1, false);
       } else {
+	// lhs can be one of the operands: read them before lhs is
+	// assigned
+	boolean_value cond_val = m_product.first().get_bool(cond);
+	boolean_value val1 = m_product.first().get_bool(b1);
+	boolean_value val2 = m_product.first().get_bool(b2);
 	m_product.select_bool(lhs, cond, b1, b2);
 	forget_implied_bool(lhs);
-	fwd_reduction_select_bool(lhs, cond, b1, b2);
-	auto val1 = m_product.first().get_bool(b1);
-	auto val2 = m_product.first().get_bool(b2);
+	fwd_reduction_select_bool(lhs, cond_val, b1, b2);
 	propagate_select_bool(m_bool_to_lincsts, val1, val2, lhs, cond, b1, b2);
 	propagate_select_bool(m_bool_to_refcsts, val1, val2, lhs, cond, b1, b2);
 	if (val2.is_false()) {
